@@ -3,7 +3,8 @@ import numpy as np
 
 from . import core
 from .arrays import SArr, elem_cast, sym_prod
-from .core import And, Not, Or, RaiseSig, SBool, SInt, SReal, SU64, Unsupported, ctx, ite, smax, smin
+from .core import And, Not, Or, RaiseSig, SBool, SInt, SReal, SU64, Unsupported, ctx
+from .core import ite, smax, smin  # noqa: F401
 from .interp import contains_sym, model
 
 
@@ -220,3 +221,153 @@ def m_can_cast(interp, a, b, casting="safe"):
     if isinstance(a, SArr):
         a = a.dtype
     return _native(np.can_cast, a, b, casting=casting)
+
+
+# --------------------------------------------------------------------------- unique / argmax
+
+class UniqueResult:
+    """ghost link between np.unique outputs and their source (assumed contract of np.unique)"""
+
+    def __init__(self, src, labels, counts, n, cnt, pos):
+        self.src, self.labels, self.counts, self.n, self.cnt, self.pos = src, labels, counts, n, cnt, pos
+
+    def sorted_instance(self, i, j):
+        """labels strictly increasing: i < j  =>  labels[i] < labels[j]"""
+        c = ctx()
+        c.assume(core.implies(And(i >= 0, i < j, j < self.n), self.labels.elem(i) < self.labels.elem(j)))
+
+    def member_instance(self, e, guard=True):
+        """every element of the source is one of the labels: returns its index (facts hold under
+        `guard`, which must say that e is an element of the source)"""
+        c = ctx()
+        p = SInt(self.pos(core._i(e)))
+        c.assume(core.implies(guard, And(p >= 0, p < self.n, self.labels.elem(p) == e)))
+        return p
+
+
+@model(np.unique)
+def m_unique(interp, a, return_index=False, return_inverse=False, return_counts=False, **kw):
+    c = ctx()
+    if not isinstance(a, SArr):
+        return _native(np.unique, a, return_index=return_index, return_inverse=return_inverse,
+                       return_counts=return_counts, **kw)
+    if return_index or return_inverse or kw:
+        raise Unsupported("np.unique options other than return_counts on symbolic arrays")
+    Z = core.Z
+    c.trust("np.unique(return_counts=True): sorted distinct values, each with its number of occurrences")
+    n = c.int("n_unique")
+    c.assume(n >= 0)
+    c.assume(core.implies(a.size >= 1, n >= 1))
+    c.assume(n <= a.size)
+    lab = c.func(c.fresh_name("labels"), Z.IntSort(), Z.IntSort(), inp=False)
+    cnt = c.func(c.fresh_name("count_of"), Z.IntSort(), Z.IntSort(), inp=False)   # occurrences of a value
+    pos = c.func(c.fresh_name("label_index"), Z.IntSort(), Z.IntSort(), inp=False)
+    labels = SArr.from_fn(lambda i: SInt(lab(core._i(i))), (n,), a.dtype, writeable=False)
+
+    def count_elem(i):
+        t = cnt(lab(core._i(i)))
+        ctx().assume(Z.And(t >= 1, t <= core._i(a.size)))
+        return SInt(t)
+    counts = SArr.from_fn(count_elem, (n,), np.dtype(np.int64), writeable=False)
+    ur = UniqueResult(a, labels, counts, n, cnt, pos)
+    labels.unique_of = ur
+    counts.unique_of = ur
+    c.ghost.setdefault("unique", []).append(ur)
+    if return_counts:
+        return labels, counts
+    return labels
+
+
+@model(np.argmax)
+def m_argmax(interp, a, *args, **kw):
+    c = ctx()
+    if not isinstance(a, SArr):
+        return _native(np.argmax, a, *args, **kw)
+    if args or kw or a.ndim != 1:
+        raise Unsupported("np.argmax form")
+    n = a.shape[0]
+    if interp.truth(n == 0):
+        raise RaiseSig(ValueError("attempt to get argmax of an empty sequence"))
+    c.trust("np.argmax: index of the first maximal element")
+    k = c.int("argmax")
+    c.assume(And(k >= 0, k < n))
+    res = ArgMaxIdx(k.t, a)
+    c.ghost.setdefault("argmax", []).append((a, res))
+    return res
+
+
+class ArgMaxIdx(SInt):
+    """index returned by np.argmax; instances of its defining property are added on demand"""
+    __slots__ = ("arr",)
+
+    def __init__(self, t, arr):
+        super().__init__(t)
+        self.arr = arr
+
+    def instance(self, i):
+        c = ctx()
+        a = self.arr
+        c.assume(core.implies(And(i >= 0, i < a.shape[0]), a.elem(self) >= a.elem(i)))
+        c.assume(core.implies(And(i >= 0, i < self), a.elem(i) < a.elem(self)))
+
+
+# --------------------------------------------------------------------------- rint / clip (real regime)
+
+def round_half_even_real(v):
+    """round-half-to-even of a real term, as an Int-valued real"""
+    Z = core.Z
+    if isinstance(v, core.SDyad):
+        c = ctx()
+        lim = (1 << 53) * v.den
+        c.prove("exact-dyadic: |value| < 2^53 before np.rint (float64 arithmetic was exact)",
+                SBool(Z.And(v.num < lim, v.num > -lim)), kind="regime")
+        return v.rint()
+    t = core._r(v)
+    fl = Z.ToInt(t)
+    frac = t - Z.ToReal(fl)
+    r = Z.If(frac < Z.RealVal("1/2"), fl,
+             Z.If(frac > Z.RealVal("1/2"), fl + 1,
+                  Z.If(fl % 2 == 0, fl, fl + 1)))
+    return SReal(Z.ToReal(r))
+
+
+@model(np.rint)
+def m_rint(interp, a, out=None, **kw):
+    c = ctx()
+    if not isinstance(a, SArr):
+        return _native(np.rint, a, out=out, **kw)
+    c.trust("np.rint: round half to even (real regime)")
+    src_fn = a.buf.fn
+    from .arrays import SBuf
+    frozen = SArr(SBuf(src_fn, a.buf.shape), a.shape, a.axes, a.dtype)
+    res = SArr.from_fn(lambda *i: round_half_even_real(frozen.elem(*i)), a.shape, a.dtype)
+    if out is not None:
+        if out is not a and not (isinstance(out, SArr) and out.buf is a.buf):
+            raise Unsupported("np.rint with a different out array")
+        if not out.writeable:
+            raise RaiseSig(ValueError("output array is read-only"))
+        out._assign(res)
+        return out
+    return res
+
+
+@model(np.clip)
+def m_clip(interp, a, a_min, a_max, out=None, **kw):
+    c = ctx()
+    if not isinstance(a, SArr):
+        return _native(np.clip, a, a_min, a_max, out=out, **kw)
+    c.trust("np.clip: min(max(x, lo), hi) element-wise")
+    from .arrays import SBuf
+    frozen = SArr(SBuf(a.buf.fn, a.buf.shape), a.shape, a.axes, a.dtype)
+    lo, hi = a_min, a_max
+    if a.dtype.kind == "f" and getattr(c, "float_mode", "real") != "dyadic":
+        lo, hi = float(lo), float(hi)
+    res = SArr.from_fn(lambda *i: smin(smax(frozen.elem(*i), lo), hi), a.shape, a.dtype)
+    if out is not None:
+        if not (isinstance(out, SArr) and out.buf is a.buf):
+            raise Unsupported("np.clip with a different out array")
+        if not out.writeable:
+            raise RaiseSig(ValueError("output array is read-only"))
+        out._assign(res)
+        return out
+    return res
